@@ -4,8 +4,8 @@ from checks.engine_common import run_engine
 META = {
     "property_id": "C01",
     "technique": "Coq invariant proof over a Gallina model of the build engine + history correspondence with fresh-process builds",
-    "level_text": "Theorems (Coq): the engine model's runs keep every successfully visited target's record fresh (names the present stamps of its dependencies, matches its environment/content, outputs exist) -- the invariant behind never-stale; builds read only live state. Correspondence: random projects x random histories (edits, partial builds, failing bodies, killed builds, dry runs, gc), every build a fresh process, model recomputes executed sets, events and records of every step; oracle: generated files equal a from-scratch build after every successful build.",
-    "level_note": 'Trusted: Coq kernel; abstractions of Build/Model.v (content hash injective, run IDs fresh, sequential evaluation in topological order justified by C04, bodies deterministic and confined to declared inputs/outputs); harness assigns equal environment numbers exactly to equal semantic function text. never_stale is stated over the ghost history; see Props_C01.v for what is proved and what is _partial.',
+    "level_text": 'Theorems (Coq, all histories): never_stale (after any history of edits, builds incl. failing and killed ones, collections, a successful build leaves every visited target current w.r.t. the ghost history of recorded executions), records_tell_the_truth, run_ids_below_counter, executed_run_is_fresh, successful_visits_are_fresh. Correspondence: 4 scripted scenarios + random projects x random histories (edits incl. inside source directories, partial builds, failing bodies, killed builds, dry runs, gc), every build a fresh process, the model recomputes executed sets, events and records of every step; oracle: generated files equal a from-scratch build after every successful build.',
+    "level_note": 'Trusted: Coq kernel; abstractions of Build/Model.v (content hash injective, run IDs fresh, sequential evaluation in a topological order justified by C04, bodies deterministic and confined to declared inputs/outputs); the harness assigns equal environment numbers exactly to equal semantic function text. incremental_eq_clean is an oracle, not a theorem.',
     "design_ref": "DESIGN.md §6 C01",
 }
 
